@@ -203,6 +203,50 @@ def run(eng, R):
             R.ob("F5-freeze", "%s.%s" % (leaf.name, const), isinstance(v, list) and all(isinstance(x, str) for x in v), (leaf.module.relpath, 0),
                  "%s.%s must be a class-level list of node names (found %r)" % (leaf.name, const, v))
 
+    # class-level node lists are shared by all instances: nobody may mutate what a list-returning helper hands out
+    MUT = {"append", "extend", "insert", "remove", "pop", "sort", "reverse", "clear"}
+    fitbase = p.find_class("FitBase")
+    const_returning = set()
+    for cls in fitbase.concrete_leafs():
+        for name, m in cls.all_methods().items():
+            if not hasattr(m, "node"):
+                continue
+            for r in ast.walk(m.node):
+                if isinstance(r, ast.Return) and r.value is not None and self_attr(r.value) and self_attr(r.value).isupper():
+                    const_returning.add(name)
+    n_sites = 0
+    for f in p.all_functions():
+        if f.cls is None or fitbase not in f.cls.mro:
+            continue
+        tainted = {}
+        for n in ast.walk(f.node):
+            if isinstance(n, ast.Assign) and len(n.targets) == 1 and isinstance(n.targets[0], ast.Name):
+                v = n.value
+                if self_attr(v) and self_attr(v).isupper():
+                    tainted[n.targets[0].id] = "self.%s" % self_attr(v)
+                elif isinstance(v, ast.Call) and isinstance(v.func, ast.Attribute) and v.func.attr in const_returning:
+                    tainted[n.targets[0].id] = "%s()" % v.func.attr
+        bad = []
+        for n in ast.walk(f.node):
+            if isinstance(n, ast.AugAssign):
+                t = n.target
+                if (isinstance(t, ast.Name) and t.id in tainted) or (self_attr(t) and self_attr(t).isupper()):
+                    bad.append((n.lineno, "%s %s= ..." % (_txt(t), type(n.op).__name__)))
+            if isinstance(n, ast.Call) and isinstance(n.func, ast.Attribute) and n.func.attr in MUT:
+                r = n.func.value
+                if (isinstance(r, ast.Name) and r.id in tainted) or (self_attr(r) and self_attr(r).isupper()):
+                    bad.append((n.lineno, _txt(n)[:60]))
+            if isinstance(n, (ast.Assign, ast.Delete)):
+                for t in (n.targets if hasattr(n, "targets") else []):
+                    if isinstance(t, ast.Subscript) and ((isinstance(t.value, ast.Name) and t.value.id in tainted) or (self_attr(t.value) and self_attr(t.value).isupper())):
+                        bad.append((n.lineno, _txt(t)))
+        if tainted or bad:
+            n_sites += 1
+            R.ob("F5-freeze", "%s:class-level list not mutated" % f.qualname, not bad, (f.file, bad[0][0] if bad else f.lineno),
+                 "%s mutates a class-level list in place (%s): the node list of every other instance and of every later fit changes with it" % (f.qualname, "; ".join(b for _, b in bad)))
+    if len(const_returning) < 1:
+        raise AnalysisError("no helper returning a class-level node list found")
+
     # ------------------------------------------------------------------ F5-sib
     for cname in ("FitBase", "XYFit"):
         a = get_func(p, cname, "_iterative_fits_needed")
